@@ -463,3 +463,98 @@ pub fn cmd_trace(args: &[String]) {
         }
     }
 }
+
+// ---------------------------------------------------------------------------------------------
+// C02 / C17, stream part: one corruption per case, every position.
+
+/// `stream-tamper <out.json> <seed> <Lmax> <first> <stride>`
+pub fn cmd_tamper(args: &[String]) {
+    let seed: u64 = args[1].parse().unwrap();
+    let lmax: usize = args[2].parse().unwrap();
+    let first: usize = args[3].parse().unwrap();
+    let stride: usize = args[4].parse().unwrap();
+    let mut rng = Rng::new(seed ^ 0xabcd);
+    let mut rep = Report::new();
+    let adls: [i64; 5] = [-1, 0, 1, 16, 33];
+    let mut idx = 0usize;
+    for mlen in 0..=lmax {
+        for &adl in adls.iter() {
+            let key: [u8; 32] = rng.arr();
+            let header: [u8; 24] = rng.arr();
+            let m = rng.bytes(mlen);
+            let ad: Option<Vec<u8>> = if adl < 0 { None } else { Some(rng.bytes(adl as usize)) };
+            let tag = (rng.below(4)) as u8;
+            let nprev = rng.below(3);
+            idx += 1;
+            if idx % stride != first { continue; }
+            // libsodium produces the authentic ciphertext, after `nprev` earlier messages
+            let (_, mut spush) = init_pair(&key, &header, 1);
+            let mut prevs = vec![];
+            for _ in 0..nprev { prevs.push(so_push(&mut spush, b"earlier", None, 0)); }
+            let c = so_push(&mut spush, &m, ad.as_deref(), tag);
+            let fresh_pull = |k: &[u8; 32], h: &[u8; 24]| -> cs::State {
+                let (mut d, _) = init_pair(k, h, 1);
+                for p in prevs.iter() {
+                    let mut mm = vec![0u8; p.len() - ABYTES];
+                    let mut t = 0u8;
+                    let _ = cs::crypto_secretstream_xchacha20poly1305_pull(&mut d, &mut mm, &mut t, p, None);
+                }
+                d
+            };
+            // (key, header, ciphertext, ad, description)
+            let mut fam: Vec<([u8; 32], [u8; 24], Vec<u8>, Option<Vec<u8>>, String, &str)> = vec![];
+            fam.push((key, header, c.clone(), ad.clone(), "untampered".into(), "none"));
+            for byte in 0..c.len() { for bit in 0..8 {
+                let mut x = c.clone(); x[byte] ^= 1 << bit;
+                let comp = if byte == 0 { "tag byte" } else if byte < 1 + mlen { "body" } else { "mac" };
+                fam.push((key, header, x, ad.clone(), format!("{} byte {} bit {}", comp, byte, bit), "flip ciphertext"));
+            } }
+            for byte in 0..24 { for bit in 0..8 { let mut h = header; h[byte] ^= 1 << bit; fam.push((key, h, c.clone(), ad.clone(), format!("header byte {} bit {}", byte, bit), "flip header")); } }
+            for byte in 0..32 { for bit in 0..8 { let mut k = key; k[byte] ^= 1 << bit; fam.push((k, header, c.clone(), ad.clone(), format!("key byte {} bit {}", byte, bit), "flip key")); } }
+            if let Some(a) = &ad { for byte in 0..a.len() { for bit in 0..8 { let mut x = a.clone(); x[byte] ^= 1 << bit; fam.push((key, header, c.clone(), Some(x), format!("AD byte {} bit {}", byte, bit), "flip AD")); } } }
+            for n in 1..=c.len().saturating_sub(ABYTES) { fam.push((key, header, c[..c.len() - n].to_vec(), ad.clone(), format!("truncated by {}", n), "truncate")); }
+            for n in 1..=40usize { let mut x = c.clone(); x.extend(rng.bytes(n)); fam.push((key, header, x, ad.clone(), format!("extended by {}", n), "extend")); }
+            for (k, h, x, a, how, kind) in fam.iter() {
+                // classic pull
+                rep.evaluations += 1;
+                let mut d = fresh_pull(k, h);
+                let before = d.clone();
+                let canary: Vec<u8> = (0..x.len() - ABYTES).map(|i| 0xC5u8 ^ (i as u8)).collect();
+                let mut out = canary.clone();
+                let mut t = 0xEEu8;
+                let r = catch(|| cs::crypto_secretstream_xchacha20poly1305_pull(&mut d, &mut out, &mut t, x, a.as_deref()));
+                match r {
+                    Err(p) => rep.fail("C02 classic stream pull: panicked", json!({"mlen": mlen, "how": how, "panic": p, "seed": seed})),
+                    Ok(res) => {
+                        if *kind == "none" {
+                            if res.is_err() || out != m || t != tag { rep.fail("C02 classic stream pull: untampered input rejected", json!({"mlen": mlen, "seed": seed})); }
+                        } else {
+                            if res.is_ok() { rep.fail(&format!("C02 classic stream pull: accepts a ciphertext with {}", kind), json!({"mlen": mlen, "how": how, "seed": seed})); }
+                            else {
+                                if t != 0xEE { rep.fail("C17 classic stream pull: tag output updated by a rejected pull", json!({"mlen": mlen, "how": how, "kind": kind, "tag_now": t, "seed": seed})); }
+                                if out != canary && !out.iter().all(|b| *b == 0) { rep.fail("C17 classic stream pull: message buffer modified by a rejected pull", json!({"mlen": mlen, "how": how, "kind": kind, "seed": seed})); }
+                                if d != before { rep.fail("C02 classic stream pull: rejected pull changed the state", json!({"mlen": mlen, "how": how})); }
+                            }
+                        }
+                    }
+                }
+                // object API
+                rep.evaluations += 1;
+                let mut o: DryocStream<Pull> = DryocStream::verif_from_state(fresh_pull(k, h));
+                let r = catch(|| o.pull_to_vec(x, a.as_ref()));
+                match r {
+                    Err(p) => rep.fail("C02 DryocStream::pull_to_vec: panicked", json!({"mlen": mlen, "how": how, "panic": p, "seed": seed})),
+                    Ok(res) => {
+                        if *kind == "none" {
+                            match res { Ok((mm, tt)) if mm == m && tt.bits() == tag => {}, _ => rep.fail("C02 DryocStream::pull_to_vec: untampered input rejected", json!({"mlen": mlen, "seed": seed})) }
+                        } else if res.is_ok() {
+                            rep.fail(&format!("C02 DryocStream::pull_to_vec: accepts a ciphertext with {}", kind), json!({"mlen": mlen, "how": how, "seed": seed}));
+                        }
+                    }
+                }
+            }
+            if mlen == 2 && adl == 1 { rep.sample(json!({"stream": true, "mlen": mlen, "adlen": adl, "presentations": fam.len()})); }
+        }
+    }
+    rep.write(&args[0]);
+}
